@@ -291,7 +291,7 @@ Qed.
 
 (* ---------------------------------------------------------------- stage 5c: functions that capture DATA variables of the module
    (by reference: the module reassigns n between the calls), directly and through a captured function; a step
-   expression reading a captured variable; a call in the lower bound of a from loop; a loop counter with the name of a captured variable shadows it *)
+   expression reading a captured variable; calls in the bounds of a from loop with a hidden counter; a loop counter with the name of a captured variable shadows it *)
 Definition nv_s10 : source :=
   [ SAssign vn (EInt 3); SAssign vk (EInt 10);
     SAssign vf (EFn [vx] [SReturn (Some (EBin BAdd (EVar vx) (EVar vn)))]);
@@ -303,7 +303,7 @@ Definition nv_s10 : source :=
                            SReturn (Some (EBin BAdd (EVar vt) (EVar vr))) ]);
     SPrint (ECall (EVar vg) [EInt 2]);
     SAssign vn (EInt 4);
-    SFrom (ECall (EVar vf) [EInt (-4)]) (EInt 2) false None None false [ SOpAssign vn BAdd (EInt 1); SPrint (ECall (EVar vf) [EVar vk]) ];
+    SFrom (ECall (EVar vf) [EInt (-4)]) (ECall (EVar vf) [EInt (-2)]) false None None false [ SOpAssign vn BAdd (EInt 1); SPrint (ECall (EVar vf) [EVar vk]) ];
     SPrint (ECall (EVar vg) [ECall (EVar vf) [EInt 0]]);
     SPrint (EVar vk) ].
 Example C01_nv_stage5c :
